@@ -341,7 +341,12 @@ def subToEComp (sub : Sub) : Except String EComp :=
     -- the generic branch: one component, or a serial train
     match sub.otherLoad, stagesOf sub with
     | some (c, _), [] => if sub.componentType = tOtherLoad then .ok (.load c) else .error "single component of unexpected type"
-    | none, [.machine m] => if sub.componentType = tGenerator then .ok (.generator m) else .error "single machine: not representable as a train"
+    | none, [s] =>
+      -- a PTI/PTO stays a PTI/PTO also with a single member (repo 1ca4f7b; as found the reader refused it)
+      if sub.componentType = tPtiPto then .ok (.serial true sub.name sub.rated sub.speed [s])
+      else match s with
+        | .machine m => if sub.componentType = tGenerator then .ok (.generator m) else .error "single machine: not representable as a train"
+        | _ => .error "subsystem not understood"
     | none, st@(_ :: _ :: _) =>
       if sub.componentType = tPtiPto then .ok (.serial true sub.name sub.rated sub.speed st)
       else if sub.componentType = tDrive then .ok (.serial false sub.name sub.rated sub.speed st)
@@ -372,5 +377,21 @@ def toFeems (m : Msg) : Except String Sys := do
     let cs ← subs.mapM subToMComp
     pure (i, cs)
   pure { name := m.name, kind := m.kind, swbs := swbs, lines := lines }
+
+/-! ### The bus-tie breakers the reader invents (the message keeps none) -/
+
+/-- Breakers of the plant read back: the switchboards in a chain in the order of their numbers. -/
+def insertSorted (a : Nat) : List Nat → List Nat
+  | [] => [a]
+  | b :: r => if a ≤ b then a :: b :: r else b :: insertSorted a r
+
+def sortIds (ids : List Nat) : List Nat := ids.foldr insertSorted []
+
+def chainOf (ids : List Nat) : List (Nat × Nat) :=
+  (sortIds ids).zip (sortIds ids).tail
+
+/-- As found (before repo d4aeffd): a chain by position, whatever the numbers are. -/
+def chainLegacy (ids : List Nat) : List (Nat × Nat) :=
+  (List.range (ids.length - 1)).map fun i => (i + 1, i + 2)
 
 end Feems.Proto
